@@ -51,6 +51,14 @@ def order_tree(rng, root, n_files=None, extra=0):
                       "mtime": base + (i * 7) % 100000, "owner": (rng.choice([0, 1, 2, 10, 100]), rng.choice([0, 5, 50])),
                       "mode": rng.choice([0o644, 0o600, 0o755])})
     tree.materialise(root, nodes)
+    # times far from today: before 1970, after 2038, after 2262 (where a nanosecond count no longer fits 64 bits)
+    if rng.random() < 0.3:
+        for k, ts in enumerate(rng.sample([-2000000000, -86400, -1, 2147483648, 4102444800, 9500000000, 10413792000, 13000000000], 3)):
+            p = os.path.join(root, "era%d.dat" % k)
+            with open(p, "w") as f:
+                f.write("e" * k)
+            os.utime(p, (ts, ts))
+            nodes.append({"path": "era%d.dat" % k, "kind": "file", "size": k, "mtime": ts})
     # sparse files whose sizes differ by less than a double can tell (the scratch area is a tmpfs: no blocks are allocated)
     if rng.random() < 0.3:
         for k, sz in enumerate(rng.sample([2 ** 53, 2 ** 53 + 1, 2 ** 53 + 2, 2 ** 53 - 1, 2 ** 60 + 1, 2 ** 60, 2 ** 32, 2 ** 32 - 1], 3)):
